@@ -639,3 +639,81 @@ Proof.
   split; [apply entry_path_exact; exact Ha|]. split; [apply entry_dir_exact; exact Ha|].
   apply md_path_exact; assumption.
 Qed.
+
+(* ------------------------------------------------------------------ blob names *)
+
+Lemma ishex_plain : forall c, ishex c = true -> plain_char c = true.
+Proof.
+  intros c H. unfold ishex in H. unfold plain_char, slash, dot.
+  destruct (c =? 47) eqn:E1; [apply N.eqb_eq in E1; subst; discriminate|].
+  destruct (c =? 46) eqn:E2; [apply N.eqb_eq in E2; subst; discriminate|]. reflexivity.
+Qed.
+
+(* a digest parameter that parses yields a CAS name without '/' and '.', so C11_cas_contained applies *)
+Theorem digest_name_ok : forall raw h, parse_digest raw = Some h -> cas_name_ok h = true.
+Proof.
+  intros raw h H. unfold parse_digest in H.
+  destruct (split_on colon raw) as [|algo [|h' [|x t]]]; try discriminate.
+  destruct (str_eqb algo sha256_lit && (N.of_nat (length h') =? 64) && forallb ishex h') eqn:E; [|discriminate].
+  inversion H; subst h'. apply andb_true_iff in E as [E Hhex]. apply andb_true_iff in E as [_ Hlen].
+  unfold cas_name_ok. apply andb_true_iff. split.
+  - destruct h; [discriminate|reflexivity].
+  - change (forallb (fun c => negb (c =? slash) && negb (c =? dot)) h) with (forallb plain_char h).
+    rewrite forallb_forall in *. intros c Hc. apply ishex_plain. apply Hhex. exact Hc.
+Qed.
+
+Theorem blob_name_contained : forall raw h dir, parse_digest raw = Some h ->
+  inside (clean dir) (cas_path dir h) = true.
+Proof. intros raw h dir H. apply cas_contained. apply (digest_name_ok raw h H). Qed.
+
+(* ------------------------------------------------------------------ ".." escapes from EVERY state directory
+   other than "/" under the pinned check (not just from the witness directory) *)
+
+Lemma strip_prefix_app2 : forall l a b, strip_prefix (l ++ a) (l ++ b) = strip_prefix a b.
+Proof. induction l as [|x l IH]; intros a b; [reflexivity|]. cbn. rewrite str_eqb_refl. apply IH. Qed.
+
+Definition dd : str := [dot; dot].
+Definition dd_data : str := dd ++ slash :: data_name.
+
+Lemma local_rel_dd : local_rel dd = dd_data.
+Proof. reflexivity. Qed.
+
+Lemma cstack_dd_data : forall r x, x <> [] ->
+  cstack r (x ++ slash :: dd_data) = data_name :: push r (cstack r x) dd.
+Proof.
+  intros r x Hx. rewrite cstack_app.
+  change (comps dd_data) with [dd; data_name]. cbn [fold_left].
+  apply push_normal. reflexivity.
+Qed.
+
+Theorem dotdot_escapes_everywhere : forall dir, clean dir <> [slash] ->
+  local_accepts_prefix dd = true /\ inside (clean dir) (entry_path dir dd) = false.
+Proof.
+  intros dir Hroot. split; [reflexivity|].
+  unfold entry_path, path_of. rewrite local_rel_dd. unfold inside. rewrite is_rooted_clean.
+  destruct dir as [|c d].
+  - reflexivity.
+  - set (x := c :: d) in *. assert (Hx : x <> []) by discriminate.
+    rewrite join_two_nonnil by (try exact Hx; discriminate).
+    set (Y := x ++ slash :: dd_data).
+    assert (HrY : is_rooted Y = is_rooted x) by (apply is_rooted_app; exact Hx).
+    rewrite is_rooted_clean, HrY, eqb_reflx. cbn [andb].
+    pose proof (cstack_clean x) as Hcx. rewrite Hcx.
+    pose proof (cstack_clean Y) as HcY. rewrite HrY in HcY. rewrite HcY.
+    unfold Y. rewrite cstack_dd_data by exact Hx.
+    pose proof (cstack_stable (is_rooted x) x) as Hst.
+    destruct (cstack (is_rooted x) x) as [|top rest] eqn:Est.
+    + destruct (is_rooted x) eqn:Er.
+      * exfalso. apply Hroot. rewrite clean_eq, Er, Est. reflexivity.
+      * reflexivity.
+    + pose proof (stable_elems _ _ Hst) as Hel. inversion Hel as [|? ? Htop _]; subst.
+      unfold push. change (is_nil dd) with false. change (is_dot dd) with false. change (is_dotdot dd) with true.
+      cbn iota. destruct Htop as [Hn | Hdd].
+      * assert (Hnd : is_dotdot top = false).
+        { destruct (is_dotdot top) eqn:E; [|reflexivity]. rewrite (dotdot_not_normal _ E) in Hn. discriminate. }
+        rewrite Hnd. cbn [rev]. rewrite strip_prefix_app2. cbn [strip_prefix].
+        destruct (str_eqb top data_name); reflexivity.
+      * rewrite Hdd. cbn [rev]. rewrite <- !app_assoc.
+        rewrite (app_assoc (rev rest) [top] ([dd] ++ [data_name])).
+        rewrite strip_prefix_app. reflexivity.
+Qed.
